@@ -140,11 +140,6 @@ package admin
 //@ fieldfunc admin.Server.ObservePublishResult(event)
 //@ fieldfunc admin.Server.AuditManagementMutation(event)
 
-//@ extern encoding/json.NewEncoder(w) (enc)
-//@   ensures enc != nil
-//@ extern encoding/json.(*Encoder).Encode(enc, v) (err)
-//@   modifies respStatus
-//@   ensures respStatus == ite(old(respStatus) == 0, 200, old(respStatus))
 
 //@ spec
 //@ func effPublishBody(s *Server, route string) int := ite(s.LimitsForRoute != nil && routeMaxBody(trim(route)) > 0, routeMaxBody(trim(route)), ite(s.MaxBodyBytes > 0, s.MaxBodyBytes, 2097152))
